@@ -3,6 +3,7 @@
   Pure part (parsing / printing / stepping); `Main.lean` does the IO.
 -/
 import AmVerif.Model.Machine
+import AmVerif.Model.RpcCodec
 namespace Am
 
 def parseList (s : String) : S :=
@@ -76,10 +77,17 @@ def showEv : Ev → String
   | .nested r q res => s!"N({showKind r.kind}:{showList r.states}:{showB r.hasArgs}|{q}|{showRes res})"
   | .errInternal => "EI"
 
+structure CodecState where
+  cfg : Rpc.Cfg := { syncSchema := true, shallow := false, tracked := [] }
+  last : Rpc.TData := { mTime := [], sum := 0, q := 0, m := 0, checksum := 0 }
+  mirror : Rpc.Mirror := { time := [], q := 0, m := 0 }
+  queue : List Rpc.TData := []
+
 structure DState where
   m : Mach := default
   rules : List Rule := []
   fuel : Nat := 200
+  codec : CodecState := {}
 
 def showState (m : Mach) (res : String) : String :=
   let evs := " ".intercalate ((m.log.filter (· != .errInternal)).map showEv)
@@ -97,7 +105,56 @@ def parseStateDef (s : String) : Option StateDef :=
 def kv (toks : List String) (key : String) : Option String :=
   toks.findSome? (fun t => if t.startsWith (key ++ "=") then some (t.drop (key.length + 1)).toString else none)
 
+def showUpdate (u : Rpc.Update) : String :=
+  s!"{showList u.idxs}/{showList u.ticks}/{u.q}/{u.m}/{u.checksum}"
+
+def showMirror (mi : Rpc.Mirror) : String := s!"mirror={showList mi.time} q={mi.q} m={mi.m}"
+
+def parseSnap (toks : List String) : Option Rpc.Snap :=
+  match toks with
+  | [t, q, m] => do
+    let q ← q.toNat?
+    let m ← m.toNat?
+    pure { time := parseList t, q := q, m := m }
+  | _ => none
+
+def stepCodec (cs : CodecState) (toks : List String) : Option (CodecState × String) :=
+  match toks with
+  | "codec" :: rest =>
+    let cfg : Rpc.Cfg := { syncSchema := (kv rest "sync") == some "1", shallow := (kv rest "shallow") == some "1",
+                           tracked := parseList ((kv rest "tracked").getD "") }
+    some ({ cfg := cfg }, "ok")
+  | "hello" :: rest =>
+    (parseSnap rest).map fun s =>
+      let mi := Rpc.helloMirror cs.cfg s
+      ({ cs with last := Rpc.helloData cs.cfg s, mirror := mi, queue := [] }, showMirror mi)
+  | "snap" :: rest =>
+    (parseSnap rest).map fun s =>
+      let data := Rpc.mkData cs.cfg s
+      let u := Rpc.calcUpdate cs.cfg cs.cfg.shallow data cs.last
+      match Rpc.clientApply cs.cfg u cs.mirror with
+      | some mi => ({ cs with last := data, mirror := mi }, s!"upd={showUpdate u} acc=1 {showMirror mi}")
+      | none => ({ cs with last := data }, s!"upd={showUpdate u} acc=0 {showMirror cs.mirror}")
+  | "qsnap" :: rest =>
+    (parseSnap rest).map fun s => ({ cs with queue := cs.queue ++ [Rpc.mkData cs.cfg s] }, "ok")
+  | ["pushmuts"] =>
+    match cs.queue.getLast? with
+    | none => some (cs, "nothing")
+    | some latest =>
+      let us := Rpc.calcUpdateMuts cs.cfg cs.queue cs.last
+      let (mi, ok) := Rpc.clientApplyMuts cs.cfg us cs.mirror
+      some ({ cs with last := latest, mirror := mi, queue := [] },
+        s!"upds={" ".intercalate (us.map showUpdate)} acc={showB ok} {showMirror mi}")
+  | "setmirror" :: rest =>
+    (parseSnap rest).map fun s =>
+      ({ cs with mirror := { time := s.time, q := s.q, m := s.m } }, "ok")
+  | _ => none
+
 def stepLine (d : DState) (line : String) : DState × String :=
+  let toks0 := (line.trimAscii.toString.splitOn " ").filter (· != "")
+  match stepCodec d.codec toks0 with
+  | some (cs, out) => ({ d with codec := cs }, out)
+  | none =>
   let toks := (line.trimAscii.toString.splitOn " ").filter (· != "")
   let runOp := fun (f : Oracle → Nat → Mach → Mach × Res) =>
     let m0 := { d.m with log := [] }
